@@ -4,12 +4,13 @@ from vcommon import *
 import vrt_runner, mu_common
 
 PID = "C01"
-PROP_V = "Props/Properties_C01.v"
+PROP_V = ["Props/Properties_C01.v", "Props/Properties_C01w.v"]
 GEN_MODULES = ["Consts", "Sites"]
 REPLAY_HINT = "VRT_SEED=<seed> [env] _work/h/<scenario>  (deterministic: same seed, same schedule); add VRT_TRACE=<file> for the step trace"
-PARTIAL = ["C01_exclusion is proved for the condition-free mutex model (lock/rlock/trylock/rtrylock/unlock/runlock with the slow paths); "
-           "the re-acquisitions inside nsync_cv_wait*, nsync_mu_wait* and nsync_wait_n are covered by the occupancy oracle over "
-           "sampled schedules, not yet by a theorem"]
+PARTIAL = ["C01_exclusion (MuModel) and C01w_exclusion (MuWaitModel: + nsync_mu_wait_with_deadline incl. the timeout re-acquisition with its "
+           "frozen-word window, unlock_slow's conversion to a writer, unlock_without_wakeup) are theorems; the re-acquisitions inside "
+           "nsync_cv_wait* (transfer to the mutex queue) and nsync_wait_n are covered by the occupancy oracle over sampled schedules and by "
+           "the cv / wait_n models' own theorems (Properties_C05cv, C11_mutex), not by one exclusion theorem over a combined model"]
 TRUSTED_BASE = ["Model/MuModel.v control skeleton: hand-written, validated by lock-step replay of implementation traces "
                 "(replay/mu_replay.ml over the extracted model; extraction uses ExtrOcamlBasic only)",
                 "harness/rt/vrt.c deterministic runtime: modelled futex, virtual clock, allocator"]
